@@ -16,7 +16,7 @@ TARGETS = ["/", "/a", "/a/b?x=1&y=2", "*", "http://example.com/p?q", "//dbl/slas
            "/caf\xe9", "/a;b=c"]
 ODD_TARGETS = ["", "/a b", "/\n", "/\tx", "/\x00", "\x7f", "?", "#", "http://", "//", "/a\rb", "/" + "a" * 300]
 VERSIONS = ["HTTP/1.1", "HTTP/1.1", "HTTP/1.1", "HTTP/1.0"]
-ODD_VERSIONS = ["HTTP/1.2", "HTTP/2.0", "HTTP/0.9", "http/1.1", "HTTP/1.1 ", "HTTP/11", "HTTP/1.10", "HTTP/1.",
+ODD_VERSIONS = ["HTTP/1.2", "HTTP/2.0", "HTTP/0.9", "HTTP/0.9", "HTTP/0.0", "HTTP/0.1", "HTTP/1.9", "http/1.1", "HTTP/1.1 ", "HTTP/11", "HTTP/1.10", "HTTP/1.",
                 "HTTP/\xb9.1", "", "HTTP/1.1\t"]
 
 SMUGGLED = "GET /smuggled HTTP/1.1\r\nHost: evil\r\n\r\n"
